@@ -51,6 +51,15 @@ type simErrFunc func() string
 
 func (e simErrFunc) Error() string { return "sim func error" }
 
+// simErrIsAll claims, through errors.Is, to be every error there is (and unwraps to a
+// library sentinel): code that classifies handler errors with errors.Is / errors.As
+// instead of leaving them alone gets fooled by it.
+type simErrIsAll struct{ inner error }
+
+func (e *simErrIsAll) Error() string        { return "sim error that matches everything" }
+func (e *simErrIsAll) Is(target error) bool { return true }
+func (e *simErrIsAll) Unwrap() error        { return e.inner }
+
 // sameErr is identity of error values: Go == where the dynamic type is comparable,
 // the same underlying pointer where it is not (== would panic there).
 func sameErr(a, b error) (same bool) {
@@ -71,8 +80,9 @@ func (e simErrVal) Error() string { return fmt.Sprintf("sim value error %d", e.i
 // (pointer sentinel, comparable struct value, io.EOF), thirteen that real handlers
 // return all the time - the library's own error values, obtained by calling the library
 // on broken input and passing the error on - three whose dynamic type is not comparable
-// (slice, map, func) and a typed nil pointer inside a non-nil error interface.
-const nErrKinds = 20
+// (slice, map, func), a typed nil pointer inside a non-nil error interface, three errors that wrap
+// a library sentinel or io.EOF with %w, and one whose Is method matches every target.
+const nErrKinds = 24
 
 // libErrs is built once at program start: tasks of C18 stage B run handlers
 // concurrently, so nothing in the harness may be initialised lazily.
@@ -118,7 +128,9 @@ func buildLibErrs() []error {
 func allSimErrors() []error {
 	out := []error{&simErrPtr{1}, simErrVal{2}, io.EOF}
 	out = append(out, libErrs...)
-	return append(out, simErrSlice{"a", "b"}, simErrMap{"k": 1}, simErrFunc(func() string { return "f" }), (*simErrPtr)(nil))
+	out = append(out, simErrSlice{"a", "b"}, simErrMap{"k": 1}, simErrFunc(func() string { return "f" }), (*simErrPtr)(nil))
+	// errors that WRAP a library sentinel (a handler adding context with %w), and one that matches everything
+	return append(out, fmt.Errorf("handler context: %w", libErrs[12]), fmt.Errorf("handler context: %w", libErrs[0]), fmt.Errorf("wrapped: %w", io.EOF), &simErrIsAll{inner: libErrs[3]})
 }
 
 // CB is one recorded callback (or the result of a re-entrant call made from one).
